@@ -812,6 +812,11 @@ int cp_rsa_sig(uint8_t *sig, size_t *sig_len, const uint8_t *msg,
 		return RLC_ERR;
 	}
 
+	/* A precomputed hash has the length of the hash function. */
+	if (hash && msg_len != RLC_MD_LEN) {
+		return RLC_ERR;
+	}
+
 	pad_len = (!hash ? RLC_MD_LEN : msg_len);
 
 #if CP_RSAPD == PKCS2
@@ -909,6 +914,13 @@ int cp_rsa_ver(uint8_t *sig, size_t sig_len, const uint8_t *msg, size_t msg_len,
 	}
 
 	if (pub == NULL || msg_len < 0) {
+		return 0;
+	}
+
+	/* A precomputed hash has the length of the hash function. */
+	if (hash && msg_len != RLC_MD_LEN) {
+		RLC_FREE(h1);
+		RLC_FREE(h2);
 		return 0;
 	}
 
